@@ -14,6 +14,7 @@ def judgeStore (st : StoreSt) (fields : List String) : StoreSt × String :=
   | ["open", "ok", _lens] => ({}, "ok open 0")
   | ["registry", same, distinct] =>
     (st, "ok registry 1" ++ (if same ≠ "1" ∨ distinct ≠ "1" then " TRIP wrong_body_for_key:registry" else ""))
+  | ["bigvalue", ok] => (st, "ok bigvalue 1" ++ (if ok ≠ "1" then " TRIP roundtrip_differs:big_record_not_persisted" else ""))
   | ["keyintact", ok] => (st, "ok keyintact 1" ++ (if ok ≠ "1" then " TRIP wrong_body_for_key:key_rewritten" else ""))
   | ["shared", ok] => (st, "ok shared 1" ++ (if ok ≠ "1" then " TRIP not_started:store_closed_by_reload" else ""))
   | ["concurrent-open", ok] => (st, "ok concurrent-open 1" ++ (if ok ≠ "1" then " TRIP not_started:store_opened_twice" else ""))
